@@ -75,7 +75,7 @@ def bounds(tier):
     return {
         "log_messages": 3,
         "script_events": 6 if q else 7,
-        "fault_budget": 1 if q else 2,
+        "fault_budget": 1,
         "too_small_budget": 1,
         "offsets": "o_1 in [0, 2^62], gaps in [1, 2^40] (symbolic)",
         "auto_commit_every_n": [None, 1, 2],
@@ -104,14 +104,14 @@ def jobs(tier):
                         "acn": acn,
                         "n": 3,
                         "K": 6 if q else 7,
-                        "faults": 1 if q else 2,
+                        "faults": 1,
                     }
                 )
     # the client may answer before the request call returns (an already-fired Deferred; the consumer's own comments
     # anticipate it): the response handlers then run inside _do_fetch
     for start in ("num", "earliest", "committed"):
         for proc in ("sync", "async"):
-            out.append({"start": start, "proc": proc, "acn": 1 if start == "committed" else None, "n": 3, "K": 5 if q else 6, "faults": 1, "sync": 1})
+            out.append({"start": start, "proc": proc, "acn": 1 if start == "committed" else None, "n": 3, "K": 5, "faults": 1, "sync": 1})
     for acn in (None, 2):
         out.append({"start": "num", "proc": "paused", "acn": acn, "n": 3, "K": 6 if q else 7, "faults": 1})
     out.append({"kind": "bytes", "batches": 2 if q else 3})
